@@ -315,6 +315,12 @@ pub fn idiom(r: &mut Rng, d: Dim, out: &mut Vec<u8>) {
     }
 }
 
+/// 0..max-1 operations
+pub fn gen_stream_0(r: &mut Rng, d: Dim, max: u64, f: &Feat) -> Vec<u8> {
+    let n = r.below(max);
+    gen_stream(r, d, n, f)
+}
+
 pub fn gen_stream_n(r: &mut Rng, d: Dim, max: u64, f: &Feat) -> Vec<u8> {
     let n = 1 + r.below(max);
     gen_stream(r, d, n, f)
@@ -530,9 +536,21 @@ pub fn fam_resize(r: &mut Rng) -> Case {
     let mut lines = vec![nl];
     let f = Feat::all();
     let steps = 2 + r.below(6);
+    let mut region: Option<(u16, u16)> = None;
     for _ in 0..steps {
+        if r.chance(1, 5) && d.rows >= 2 {
+            let t = 1 + r.below(u64::from(d.rows) - 1) as u16;
+            let bt = t + 1 + r.below(u64::from(d.rows - t)) as u16;
+            lines.push(format!("P {}", hex(format!("\x1b[{t};{bt}r").as_bytes())));
+            region = Some((t, bt));
+            continue;
+        }
         if r.chance(1, 2) {
-            let (nr, nc) = if r.chance(1, 10) { (24u16, 80u16) } else { (1 + r.below(u64::from(d.rows.min(20)) + 3) as u16, 1 + r.below(u64::from(d.cols.min(20)) + 3) as u16) };
+            let (nr, nc) = if let (Some((t, bt)), true) = (region, r.chance(1, 2)) {
+                // new height on or next to the margins of the region
+                let cand = [bt.saturating_sub(1), bt, bt + 1, t, t + 1, t.saturating_sub(1)];
+                ((*r.pick(&cand)).max(1), 1 + r.below(u64::from(d.cols.min(20)) + 3) as u16)
+            } else if r.chance(1, 10) { (24u16, 80u16) } else { (1 + r.below(u64::from(d.rows.min(20)) + 3) as u16, 1 + r.below(u64::from(d.cols.min(20)) + 3) as u16) };
             if resizing && r.chance(1, 2) {
                 lines.push(format!("P {}", hex(format!("\x1b[8;{nr};{nc}t").as_bytes())));
             } else {
@@ -776,6 +794,156 @@ pub fn fam_alt(r: &mut Rng) -> Case {
     Case { lines }
 }
 
+
+/// diff pairs around a row that becomes (or stops being) wrapped between P and S
+pub fn fam_wrapdiff(r: &mut Rng) -> Case {
+    let rows = 2 + r.below(4) as u16;
+    let cols = 2 + r.below(7) as u16;
+    let d = Dim { rows, cols };
+    let mut lines = vec![format!("NEW {} {} {} 0", rows, cols, *r.pick(&[0usize, 0, 3]))];
+    let row = 1 + r.below(u64::from(rows) - 1) as u16; // 1-based row that gets filled
+    let mut p = vec![];
+    if r.chance(1, 3) {
+        p.extend(format!("\x1b[3{}m", r.below(8)).as_bytes());
+    }
+    p.extend(format!("\x1b[{row};1H").as_bytes());
+    let fill = |r: &mut Rng, out: &mut Vec<u8>, n: u16, wide_end: bool| {
+        let mut left = n;
+        while left > 0 {
+            if wide_end && left == 2 {
+                out.extend(r.pick(WIDE).as_bytes());
+                left -= 2;
+            } else if left >= 3 && r.chance(1, 6) {
+                out.extend(r.pick(WIDE).as_bytes());
+                left -= 2;
+            } else {
+                out.push(b'a' + r.below(26) as u8);
+                left -= 1;
+            }
+        }
+    };
+    let wide_end = cols >= 3 && r.chance(1, 3);
+    fill(r, &mut p, cols, wide_end);
+    // next row's first cell: narrow, wide, coloured, blank, or blank with a colour
+    let first: Vec<u8> = match r.below(6) {
+        0 => r.pick(WIDE).as_bytes().to_vec(),
+        1 => format!("\x1b[4{}m \x1b[m", r.below(8)).into_bytes(),
+        2 => format!("\x1b[3{}mq\x1b[m", r.below(8)).into_bytes(),
+        3 => vec![],
+        _ => vec![b'A' + r.below(26) as u8],
+    };
+    let p_wraps = r.chance(1, 3);
+    if !p_wraps {
+        p.extend(b"\r\n");
+    }
+    p.extend(&first);
+    if first.is_empty() && r.chance(1, 2) {
+        p.extend(b"\x1b[C");
+    }
+    let tail_p = gen_stream_0(r, d, 3, &Feat::plain());
+    p.extend(&tail_p);
+    p_lines(r, &p, &mut lines);
+    lines.push("SNAP 0".into());
+    // S: the same picture, but the filled row now wraps (or no longer wraps) into the next one
+    let mut q = vec![];
+    q.extend(format!("\x1b[{row};{cols}H").as_bytes());
+    if r.chance(1, 5) {
+        q.extend(b"\x1b[K");
+    }
+    if wide_end {
+        q.extend(format!("\x1b[{row};{}H", cols - 1).as_bytes());
+        q.extend(r.pick(WIDE).as_bytes());
+    } else {
+        q.push(b'a' + r.below(26) as u8);
+    }
+    if p_wraps {
+        q.extend(b"\r\n");
+    }
+    q.extend(&first);
+    match r.below(4) {
+        0 => {}
+        1 => q.extend(format!("\x1b[{}C{}", r.below(3), (b'a' + r.below(26) as u8) as char).as_bytes()),
+        2 => gen_text(r, &mut q),
+        _ => q.extend(gen_stream_n(r, d, 3, &Feat::plain())),
+    }
+    p_lines(r, &q, &mut lines);
+    for l in ["DUMP", "DIFF state 0", "DIFF contents 0", "FMT state"] {
+        lines.push(l.into());
+    }
+    lines.push(format!("ROWSD 0 0 {cols}"));
+    lines.push(format!("ROWSF 0 {cols}"));
+    lines.push("SNAP 1".into());
+    let extra = gen_stream_n(r, d, 3, &Feat::plain());
+    p_lines(r, &extra, &mut lines);
+    lines.push("DIFF state 1".into());
+    lines.push("DIFF state 0".into());
+    Case { lines }
+}
+
+/// cursor past the last column (pending wrap) in all the situations the cursor fix-up distinguishes
+pub fn fam_cursorfix(r: &mut Rng) -> Case {
+    let rows = 2 + r.below(5) as u16;
+    let cols = 1 + r.below(7) as u16;
+    let d = Dim { rows, cols };
+    let cap = *r.pick(&[0usize, 0, 2, 5]);
+    let mut lines = vec![format!("NEW {rows} {cols} {cap} 0")];
+    let mut b = vec![];
+    if r.chance(1, 2) {
+        // a scroll region somewhere
+        let t = 1 + r.below(u64::from(rows));
+        let bt = t + r.below(u64::from(rows));
+        b.extend(format!("\x1b[{t};{bt}r").as_bytes());
+    }
+    if r.chance(1, 4) {
+        b.extend(b"\x1b[?6h");
+    }
+    b.extend(gen_stream_0(r, d, 4, &Feat::plain()));
+    // fill some row up to the right margin (leaves the cursor pending)
+    let row = 1 + r.below(u64::from(rows));
+    b.extend(format!("\x1b[{row};1H").as_bytes());
+    if r.chance(1, 4) {
+        b.extend(format!("\x1b[4{}m", r.below(8)).as_bytes());
+    }
+    let mut left = cols;
+    while left > 0 {
+        if left == 2 && r.chance(1, 2) {
+            b.extend(r.pick(WIDE).as_bytes());
+            left -= 2;
+        } else {
+            b.push(b'a' + r.below(26) as u8);
+            left -= 1;
+        }
+    }
+    // now move / edit without leaving the pending column
+    for _ in 0..r.below(4) {
+        match r.below(9) {
+            0 => b.extend(b"\n"),
+            1 => b.extend(format!("\x1b[{}B", param(r, d)).as_bytes()),
+            2 => b.extend(format!("\x1b[{}A", param(r, d)).as_bytes()),
+            3 => b.extend(format!("\x1b[{}d", param(r, d)).as_bytes()),
+            4 => b.extend(*r.pick(&[&b"\x1b[K"[..], b"\x1b[1K", b"\x1b[2K", b"\x1b[J", b"\x1b[X"])),
+            5 => b.extend(*r.pick(&[&b"\x1b[L"[..], b"\x1b[M", b"\x1b[S", b"\x1b[T", b"\x1bM"])),
+            6 => b.extend(format!("\x1b[4{}m", r.below(8)).as_bytes()),
+            7 => b.extend(b"\x1b7"),
+            _ => b.extend(b"\x0b"),
+        }
+    }
+    p_lines(r, &b, &mut lines);
+    if cap > 0 && r.chance(1, 3) {
+        lines.push(format!("SB {}", 1 + r.below(3)));
+    }
+    lines.push("SNAP 0".into());
+    for l in ["DUMP", "FMT state", "FMT cursor", "FMT contents"] {
+        lines.push(l.into());
+    }
+    lines.push(format!("ROWSF 0 {cols}"));
+    let more = gen_stream_0(r, d, 3, &Feat::plain());
+    p_lines(r, &more, &mut lines);
+    lines.push("DIFF state 0".into());
+    lines.push("FMT state".into());
+    Case { lines }
+}
+
 pub fn family(name: &str) -> fn(&mut Rng) -> Case {
     match name {
         "stream" => fam_stream,
@@ -789,6 +957,8 @@ pub fn family(name: &str) -> fn(&mut Rng) -> Case {
         "sgr" => fam_sgr,
         "acc" => fam_acc,
         "alt" => fam_alt,
+        "wrapdiff" => fam_wrapdiff,
+        "cursorfix" => fam_cursorfix,
         _ => panic!("unknown family {name}"),
     }
 }
